@@ -195,8 +195,8 @@ class Runner:
             out.append({"sk": kind, "root": root, "var": var if "name" in var else {"vk": vk, "name": ""},
                         "d": st["d"], "ev": events})
 
-        if vk == "long":
-            o, w = pad_long(o, w, var["path"], LONG_PAD)
+        if vk in ("long", "deepen"):
+            o, w = pad_long(o, w, var["path"], LONG_PAD) if vk == "long" else deepen(o, w, var["name"], DEEP_PAD, self.pkg)
             evs = []
             ev, obj = self.ev_structure(w, cls, root)
             evs.append(ev)
@@ -234,7 +234,10 @@ class Runner:
                 self.round_trip_tail(evs, obj, cls, root)
             session("ctor", evs)
             fr = st.get("fr") or {}
-            if fr.get("name") and st["d"] == 1 and o.get("k") == "inst" and root["kind"] != "alias":
+            # (an always-written property that the new state leaves unset is still on the wire: "unsetting" a literal or
+            # null-admitting attribute is not an assignment of a value of its type)
+            unset_special = fr.get("name") and fr["name"] not in pyside.fun(o.get("p", {})) and fr["name"] in pyside.fun(w.get("f", {}))
+            if fr.get("name") and st["d"] == 1 and o.get("k") == "inst" and root["kind"] != "alias" and not unset_special:
                 evs = self.mutate_session(o, fr, cls, root)
                 if evs:
                     session("mutate", evs)
@@ -339,10 +342,40 @@ def pad_long(o, w, path, n):
             wn = pyside.fun(wn["f"])[step]
         else:
             raise ValueError("path does not lead to an array")
+    if on["k"] == "map":
+        of, wf = pyside.fun(on["f"]), pyside.fun(wn["f"])
+        k0 = sorted(of)[0]
+        for i in range(n):
+            of["k%03d" % i] = copy.deepcopy(of[k0])
+            wf["k%03d" % i] = copy.deepcopy(wf[k0])
+        on["f"], wn["f"] = of, wf
+        return o, w
     oa, wa = pyside.seq(on["a"]), pyside.seq(wn["a"])
     on["a"] = [copy.deepcopy(oa[0]) for _ in range(n)] + list(oa)
     wn["a"] = [copy.deepcopy(wa[0]) for _ in range(n)] + list(wa)
     return o, w
+
+
+DEEP_PAD = int(os.environ.get("VERIF_DEEP_PAD", "40"))
+
+
+def deepen(o, w, name, n, pkg):
+    """The `deepen` variant of Codec.tla: the value nested into itself n times along property `name` (which holds an
+    instance of the root's class, directly or as the single element of an array)."""
+    import copy
+    wire_name = name
+    inner_o, inner_w = copy.deepcopy(o), copy.deepcopy(w)
+    for _ in range(n):
+        outer_o, outer_w = copy.deepcopy(o), copy.deepcopy(w)
+        po, pw = pyside.fun(outer_o["p"]), pyside.fun(outer_w["f"])
+        if po[name]["k"] == "arr":
+            po[name]["a"] = [inner_o]
+            pw[wire_name]["a"] = [inner_w]
+        else:
+            po[name] = inner_o
+            pw[wire_name] = inner_w
+        inner_o, inner_w = outer_o, outer_w
+    return inner_o, inner_w
 
 
 def scramble(obj, depth=0, seen=None):
